@@ -1,4 +1,4 @@
-use crate::{core, packed};
+use crate::{core, packed, prelude::*};
 
 /*
  * Blockchain
@@ -67,6 +67,11 @@ impl<'r> packed::TransactionVecReader<'r> {
 impl<'r> packed::BlockReader<'r> {
     fn check_data(&self) -> bool {
         self.transactions().check_data()
+            // the accessors unwrap the extension, and compatible decoding does not verify extra fields
+            && self
+                .extra_field(0)
+                .map(|data| packed::BytesReader::from_slice(data).is_ok())
+                .unwrap_or(true)
     }
 }
 
@@ -97,6 +102,16 @@ impl<'r> packed::RelayTransactionsReader<'r> {
     /// Recursively checks whether the structure of the binary data is correct.
     pub fn check_data(&self) -> bool {
         self.transactions().check_data()
+    }
+}
+
+impl<'r> packed::CompactBlockReader<'r> {
+    /// Checks whether the extension, if there is one, is well-formed (the accessors unwrap it).
+    pub fn check_data(&self) -> bool {
+        self.to_entity()
+            .extra_field(0)
+            .map(|data| packed::BytesReader::from_slice(&data).is_ok())
+            .unwrap_or(true)
     }
 }
 
